@@ -47,6 +47,11 @@ pub enum Step {
     /// snapshot through the public create_snapshot, truncate_log. The entries
     /// dropped from memory stay promised: a restart must still come back with them.
     Compact { back: u8 },
+    /// `n` election timeouts in a row (a node that cannot reach a quorum for a
+    /// long time): a long log of superseded term/vote records
+    Churn { n: u16 },
+    /// clean stop and restart from the log between two steps
+    Restart,
     Election,
     VoteResp { from: u8, granted: bool, dterm: i8 },
     AppendResp { from: u8, ok: bool, back: u8, dterm: i8 },
@@ -366,6 +371,19 @@ impl<'a> Trial<'a> {
                     self.ctx.probe("log_compacted_in_memory");
                 }
             },
+            Step::Restart => {},
+            Step::Churn { n } => {
+                self.ctx.event(&format!("{n} election timeouts in a row"));
+                for _ in 0..*n {
+                    let _ = crate::net::now_or_never(node.start_election_async());
+                    if self.ctx.is_dead(NODE) {
+                        break;
+                    }
+                }
+                if *n >= 1000 {
+                    self.ctx.probe("log_of_more_than_1000_records");
+                }
+            },
             Step::Election => {
                 self.ctx.event("election timeout");
                 let _ = crate::net::now_or_never(node.start_election_async());
@@ -599,7 +617,7 @@ impl<'a> Trial<'a> {
         let mut crashes_done = 0;
         let mut a = self.node_image();
         while i <= steps.len() {
-            if !ctx.is_dead(NODE) && i < steps.len() {
+            if !ctx.is_dead(NODE) && i < steps.len() && steps[i] != Step::Restart {
                 ctx.event(&format!("step {i}: {:?}", steps[i]));
                 if let Err(v) = self.exec(&steps[i]) {
                     return (Err(v), syslog);
@@ -657,8 +675,12 @@ impl<'a> Trial<'a> {
             if let Some(c) = next_crash {
                 ctx.arm_crash(NODE, c.nth, c.bytes);
             }
+            let mid_program = !crashed && i < steps.len();
             let what = if crashed {
                 format!("after crash #{crashes_done} inside step {i}")
+            } else if mid_program {
+                ctx.probe("clean_restart_between_steps");
+                format!("after clean stop before step {i}")
             } else {
                 "after clean stop".to_string()
             };
@@ -676,6 +698,10 @@ impl<'a> Trial<'a> {
             }
             let _ = self.cl.drain_inflight();
             a = self.node_image();
+            if mid_program {
+                i += 1;
+                continue;
+            }
             if !crashed {
                 break;
             }
@@ -820,6 +846,21 @@ impl Scenario for C10 {
                 }
             }
         }
+        // a few seeded-crash cases start with a long history of lost elections
+        let mut mode = mode;
+        if mode != Mode::Enumerate && rng.chance(1, 8) {
+            steps.insert(0, Step::Churn { n: *rng.pick(&[300u16, 1100, 1100, 2200]) });
+            steps.insert(1, Step::Restart);
+            // seeded crashes count syscalls from the start and would all land inside the
+            // churn: these programs restart cleanly (here, possibly once more below, and
+            // at the end)
+            mode = Mode::Chain(Vec::new());
+        }
+        // clean restarts between steps
+        if rng.chance(1, 4) {
+            let at = rng.usize_below(steps.len() + 1);
+            steps.insert(at, Step::Restart);
+        }
         Case { pre_vote: rng.chance(1, 2), fast_path: rng.chance(1, 2), geo: rng.chance(1, 2), steps, mode, trailing: 1 + rng.below(3) as u8 }
     }
 
@@ -960,6 +1001,7 @@ impl Scenario for C10 {
             "proposed_as_leader",
             "log_compacted_in_memory",
             "entry_record_over_1mib",
+            "log_of_more_than_1000_records",
         ]
     }
     fn rule(&self) -> String {
